@@ -4,6 +4,21 @@ that the manifest stays valid and consistent while checks are added)."""
 import json, sys
 
 CHECKS = {
+ "C08": ("exploration",
+         "runtime monitor: real Builder driven by scripted fetcher/registry/finders; bundle lookups and files vs a reference closure computed by independent harness code; exhaustive small worlds + PRNG worlds",
+         "Each scripted world is built with the real Builder; a reference closure (harness path algebra and version choice) lists every source that must be resolvable. For every closure source the lookup must succeed, lie inside the bundle directory and show exactly the fetched content; registry lookups must equal the lookup of the named remote address joined with the sub-path; package metadata, registry versions, source addresses and deprecations must be retrievable unchanged. Exhaustive over 2 x 19683 three-location worlds (every 9th in quick) plus PRNG worlds with aliasing content, cycles, diamonds, several finders.",
+         "Fault-free worlds only; finders identify content by a marker file.",
+         "DESIGN.md §5 C08"),
+ "C14": ("exploration",
+         "offline checker over the recorded callback + BuildTracer event log: exactly-once counting against the reference closure and a per-key bracket automaton; logical termination bound",
+         "Same worlds as C08. All fetcher/registry/finder calls and trace events go to one sequence-numbered log; the checker requires exactly one fetch per closure package (none outside), one version-list request per registry package, one source-address request per selected version, finder runs equal to the number of distinct closure addresses per (content, sub-path, finder), and start->(success|failure)->already* per key. A build exceeding 4x the closure's callback count is aborted and reported as non-terminating.",
+         "Order of events is unconstrained; fault-free worlds only.",
+         "DESIGN.md §5 C14"),
+ "C17": ("exploration",
+         "runtime monitor: registry client call log and bundle accessors vs a brute-force newest-allowed choice (own semver precedence); exhaustive listing orders x allowed sets",
+         "Every ordered list of <=3 (quick, every 3rd) / <=4 (thorough) versions of a 10-version universe x 12 allowed sets, multi-request builds through all three Add entry points and finder-reported dependencies, and the C08 worlds: the version whose source the builder requests, the versions and deprecations recorded in the bundle must match the brute-force maximum of offered-and-allowed; unsatisfiable requests must produce an error.",
+         "Membership is asked of the caller's versions.Set.",
+         "DESIGN.md §5 C17"),
  "C16": ("exploration",
          "runtime differential monitor (decoded slug vs baseline) over spellings / working directories / symlinked roots / call histories, and the Go race detector over concurrent Pack calls",
          "For every generated tree and option set the decoded entry list of Pack by the absolute clean path is compared with the lists obtained under 16 variations of spelling, working directory, route through symlinks and preceding calls; concurrent rounds (fresh race-instrumented process each, 8-16 goroutines behind a barrier, default-rule and negation-first rule files mixed) compare every output with a solo run and treat any race-detector report as a violation.",
